@@ -150,6 +150,15 @@ pub fn plan(prop: &str, tier: &str) -> Option<Plan> {
             for u in b.units.iter_mut().filter(|u| u.scenario == "gen/rc") {
                 u.bound = 2;
             }
+            {
+                // a reader's whole critical section against a mutator, both generated
+                let from = b.units.len();
+                let (k1, k2) = if quick { (2, 1) } else { (2, 2) };
+                for init in 0..2 {
+                    b.add_cases("gen/reader", e(0).set("k1", k1).set("k2", k2).set("init", init).set("pre", 2), crate::scen::gen::reader_cases(k1 as usize, k2 as usize), if quick { 16 } else { 40 });
+                }
+                b.units[from..].iter_mut().for_each(|u| u.bound = if quick { 1 } else { 2 });
+            }
             b.goal("rc/stalled-dropper", "cascade-child-destructed");
             b.goal("rc/reader-second-path", "try-destruct-ran");
             b.goal("rc/ws-upgrade-vs-cascade-child", "upgrade-some");
